@@ -492,6 +492,63 @@ def constructors(S, n, t):
             S.prove_eq(sub1, R1, name + "[1:, -1].cov")
 
 
+def arithmetic(S, n, t):
+    """+, *, /, + scalar, add_jitter, expand, unsqueeze keep the joint distribution's meaning in BOTH layouts (and sums of
+       distributions of different layouts add the covariances of the same (point, task) pairs)"""
+    N = n * t
+    mean = S.randn(n, t); Ms = S.sym_tensor(mean, "m")
+    mean2 = S.randn(n, t); Ms2 = S.sym_tensor(mean2, "k")
+    Gs, Gc = S.factor("g", N)
+    Hs, Hc = S.factor("h", N)
+    # joint covariances in the interleaved order (i * t + a)
+    C1s, C2s = Gs @ Gs.T, Hs @ Hs.T
+    perm = [a * 0 + (i * t + a) for a in range(t) for i in range(n)]  # non-interleaved position a*n+i <- interleaved entry i*t+a
+    def stored(Cs_, Cc_, inter):
+        c = Cc_ if inter else Cc_[perm][:, perm].contiguous()
+        S.put(c, Cs_ if inter else Cs_[np.ix_(perm, perm)])
+        return c
+    with S.mode():
+        for inter in (False, True):
+            d1 = MultitaskMultivariateNormal(mean, stored(C1s, Gc @ Gc.T, inter), interleaved=inter)
+            for inter2 in (False, True):
+                d2 = MultitaskMultivariateNormal(mean2, stored(C2s, Hc @ Hc.T, inter2), interleaved=inter2)
+                s_ = S.must_not_raise("d1 + d2 (layouts %s, %s)" % (inter, inter2), lambda: d1 + d2)
+                _joint_eq(S, s_, Ms + Ms2, C1s + C2s, n, t, "d1(interleaved=%s) + d2(interleaved=%s)" % (inter, inter2))
+            for name, f, mref, cref in (("d * 2.5", lambda d: d * 2.5, Ms * Sym.const(2.5), C1s * Sym.const(6.25)),
+                                       ("d / 2", lambda d: d / 2.0, Ms * Sym.const(0.5), C1s * Sym.const(0.25)),
+                                       ("d + 1.5", lambda d: d + 1.5, Ms + Sym.const(1.5), C1s),
+                                       ("d.add_jitter(0.1)", lambda d: d.add_jitter(0.1), Ms, C1s + eye_(N) * Sym.const(0.1)),
+                                       ("d.expand([2])[1]", lambda d: d.expand(torch.Size([2]))[1], Ms, C1s),
+                                       ("d.unsqueeze(0)[0]", lambda d: d.unsqueeze(0)[0], Ms, C1s),
+                                       ("sum([d, d])", lambda d: sum([d, d]), Ms * Sym.const(2.0), C1s * Sym.const(2.0))):
+                r = S.must_not_raise("%s (interleaved=%s)" % (name, inter), lambda: f(d1))
+                _joint_eq(S, r, mref, cref, n, t, "%s (interleaved=%s)" % (name, inter))
+
+
+def eye_(N):
+    E = np.empty((N, N), dtype=object)
+    for i in range(N):
+        for j in range(N):
+            E[i, j] = Sym.const(1.0 if i == j else 0.0)
+    return E
+
+
+def _joint_eq(S, d, Mref, Cjoint, n, t, label):
+    """d is the joint distribution with mean Mref (n x t) and covariance Cjoint given in the interleaved order"""
+    S.prove_eq(d.mean, Mref, label + ": mean")
+    V = np.empty((n, t), dtype=object)
+    for i in range(n):
+        for a in range(t):
+            V[i, a] = Cjoint[i * t + a, i * t + a]
+    S.prove_eq(d.variance, V, label + ": variance")
+    order = [(i, a) for i in range(n) for a in range(t)] if d._interleaved else [(i, a) for a in range(t) for i in range(n)]
+    Cref = np.empty((n * t, n * t), dtype=object)
+    for p_, (i, a) in enumerate(order):
+        for q_, (j, c) in enumerate(order):
+            Cref[p_, q_] = Cjoint[i * t + a, j * t + c]
+    S.prove_eq(d.covariance_matrix, Cref, label + ": covariance in the result's own layout")
+
+
 def constructors_batched(S, n, t, bshape, task_pos):
     """from_batch_mvn with the task dimension anywhere among SEVERAL batch dimensions, from_repeated_mvn on a batched MVN:
        element b of the result = independent tasks built from the b-th batch elements (mean, variance, log_prob layout)"""
@@ -558,12 +615,14 @@ def scenarios(tier, seed):
             add("dist_semantics", n=n, t=t, batch=0, inter=inter)
             add("indexing", n=n, t=t, batch=0, inter=inter, alphabet="q" if tier == "quick" else "t")
     add("constructors", n=3, t=2)
+    add("arithmetic", n=2, t=2)
     add("constructors_batched", n=2, t=2, bshape=[2, 2], task_pos=0)
     add("constructors_batched", n=2, t=2, bshape=[2], task_pos=1)
     for inter in (True, False):
         add("indexing", n=3, t=2, batch=2, inter=inter, alphabet="q")
     if tier == "thorough":
         add("constructors", n=2, t=3)
+        add("arithmetic", n=2, t=3)
         add("constructors_batched", n=2, t=3, bshape=[2, 2], task_pos=1)
         add("constructors_batched", n=2, t=2, bshape=[2, 3], task_pos=0)
         add("constructors_batched", n=2, t=2, bshape=[3, 2], task_pos=2)
